@@ -117,7 +117,7 @@ impl ChannelSlot {
             return_handler: None,
             pub_confirm_handler: None,
             #[cfg(amiquip_verif)]
-            verif: crate::verif::SlotGuard::new(channel_id, mio_channel_bound),
+            verif: crate::verif::SlotGuard::new(channel_id, usize::max(1, mio_channel_bound)),
         };
 
         let loop_handle = IoLoopHandle::new(channel_id, mio_tx, rx);
